@@ -1375,6 +1375,10 @@ func TestVerifC16(t *testing.T) {
 			"the crafted proxy.DNSContext goes through HandleBefore (outcome = SERVFAIL error / ClientID found in the request-id cache) and through clientIDFromDNSContext; "+
 			"non-trivial = the extraction has something to decide: DoT/DoQ name differs from the configured one, DoH path is not the bare /dns-query or its name differs, plain/DNSCrypt context carries hostile TLS/QUIC/HTTP objects naming a ClientID; distinct by the whole case")
 	defer func() {
+		if t.Failed() {
+			// An assertion of a product test helper ended the function.
+			rep.Inconcl("the test function was ended by a failed helper assertion (see the log)")
+		}
 		if err := rep.Write(); err != nil {
 			t.Fatal(err)
 		}
